@@ -67,7 +67,15 @@ def cases(draw):
                 if kind == "DateTime":
                     # date / time-stamp spellings a spreadsheet produces; the one suffix that is documented to depend
                     # on the format is recognised cell by cell in check_case and keeps the case out of the comparison
-                    rows[y][x] = draw(st.sampled_from(WILD_MOMENTS))
+                    accepted = [c for c in spec["fields"][x].get("accept", []) if c.strip()]
+                    if accepted and draw(st.booleans()):
+                        # a value the field accepts, dressed the way a spreadsheet shows a date-time cell: with a date
+                        # in front, a time or a fraction behind
+                        base = draw(st.sampled_from(accepted))
+                        rows[y][x] = draw(st.sampled_from(["2024-05-06 " + base, "1899-12-30 " + base, "1900-01-01 " + base,
+                                                           base + " 00:00:00", base + " 12:34:56", base + ".789000"]))
+                    else:
+                        rows[y][x] = draw(st.sampled_from(WILD_MOMENTS))
                 else:
                     numeric = kind in ("Integer", "Decimal")
                     rows[y][x] = draw(st.sampled_from(WILD_NUMBERS if numeric and draw(st.booleans()) else WILD_TEXTS))
